@@ -3,14 +3,14 @@ PROP = {
     "run_modules": ["RunJson"],
     "n": {"quick": 4000, "thorough": 60000},
     "level": "proof",
-    "technique": "Coq transcription of encoding/json's string encoder/decoder and of Map.Json's post-marshal rewrite (bytes.Replace x3) + theorems over all strings / all Maps + model/implementation correspondence by vm_compute (all single bytes, hazardous fragments, random Maps, arbitrary byte strings for NewMapJson) + Go-side oracle",
+    "technique": "Coq transcription of encoding/json's string encoder (HTML escaping on/off) and decoder, of Map.Json / JsonIndent (marshalJSON + json.Indent) and of the former post-marshal rewrite (bytes.Replace x3, kept as a specification artefact) + theorems over all strings / all Maps + model/implementation correspondence by vm_compute (all single bytes, hazardous fragments, random Maps, arbitrary byte strings for NewMapJson) + Go-side oracle",
     "design_ref": "DESIGN.md section 6, C06",
     "assumptions": [
-        "encoding/json is the environment and is modelled at the string layer only: quote_body / unquote_body transcribe appendString (go1.23, escapeHTML on as json.Marshal does) and unquoteBytes after the scanner; both are compared with the real functions on every run (all single bytes, fragment strings)",
+        "encoding/json is the environment and is modelled at the string layer only: quote_body / unquote_body transcribe appendString (go1.23, escapeHTML on or off) and unquoteBytes after the scanner; both are compared with the real functions on every run (all single bytes, fragment strings); the former rewrite of Spec/JsonSpec.v is compared with the real bytes.Replace",
         "the structure around string literals is carried as segments (objects with sorted keys, arrays, numbers as the text encoding/json prints, true/false/null); decode_segs is the structural inverse and is compared with NewMapJson(Json(m)) on every run",
-        "NewMapJson is a function of the stdlib decoder oracle (Decoder.Decode into a map[string]interface{}; per-case table filled by the real decoder)",
+        "NewMapJson is a function of the stdlib decoder oracle (Decoder.Decode of the first value into an interface{}; per-case table filled by the real decoder)",
         "package variable JsonUseNumber is set before and restored after each call",
     ],
-    "level_text": "Machine-checked theorems over the executable model of Map.Json / Map.JsonIndent (marshal + the three bytes.Replace passes) and of the string codec of encoding/json, for all strings and all Maps; the defect of the default encoding is a _refuted witness and the positive theorems carry the exact side condition (no string contains backslash-u003c, -u003e, -u0026); the model is tied to the current /repo by differential correspondence and a Go-side oracle evaluates the property statement on the implementation.",
-    "level_note": "Trusted: Coq kernel + vm_compute; encoding/json's structure (segments) and its decoder (oracle) are the environment, validated by correspondence; recorded findings: literal escape text in default mode, NewMapJson acceptance deviations (leading blank before '[', data after an array, null, empty input).",
+    "level_text": "Machine-checked theorems over the executable model of Map.Json / Map.JsonIndent and of the string codec of encoding/json, for all valid UTF-8 strings and all Maps of JSON types, both encodings: per-string law, every literal of the output decodes to its string, safe encoding has no literal < > &, NewMapJson = the acceptance specification on non-empty input; the former default encoding (repaired in /repo b2598e9) is kept as a specification artefact with its refutation and the byte-for-byte compatibility theorem; the model is tied to the current /repo by differential correspondence and a Go-side oracle evaluates the property statement on the implementation.",
+    "level_note": "Trusted: Coq kernel + vm_compute; encoding/json's structure (segments, decode_segs) and its decoder (oracle) are the environment, validated by correspondence; the structural round trip decode_segs o segments is not proved (environment model), the literal-level round trip is; one recorded finding (NewMapJson accepts the empty input, documented).",
 }
